@@ -412,7 +412,7 @@ theorem burst_movein_rename_state (s : Sys) (o q1 q2 : P) (e : Ent) (inv : InvRe
                 stopped := false },
        moveinRenameEvents (s.fs.renamed o q2) s.full q1 q2) := by
     unfold Sys.burst
-    simp only [hk, hs, hc, Bool.or_self, Bool.false_eq_true, if_false, hl, hgs, hem, hmo]
+    simp only [hk, hs, hc, Bool.or_self, Bool.false_eq_true, if_false, hl, hgs, hem, departed_nil _ hmo]
     simp [forgetAll_nil]
   rw [hburst]
   exact ⟨rfl, rfl, rfl, hc, invF⟩
